@@ -443,6 +443,13 @@ add("e3_k8_from_reader", "", overlay="e3",
     desc="yaml::encoding::Encoder::from_reader from the library crate's MIR: the detector is given prefix.unread() where the prefix buffer was filled by io::copy(reader.by_ref().take(DETECT_LEN)) - io::copy loops until Take is exhausted, so four bytes are seen for EVERY windowing of the source - and Encoder::new gets prefix.chain(reader) with the detected encoding; a copy failure is returned as Err",
     bounds="all paths of from_reader (data-flow of the four observable calls)", functions=["yaml::encoding::Encoder::from_reader"],
     props=["C07", "C02", "C09"], timeout=300, mem_gb=4, assumptions=K_ASM[:1] + ["documented contract of std::io::copy / Read::take / Read::chain"])
+add("e3_k21_handle", "", overlay="e3",
+    desc="the rewindable input handle's glue over Box<dyn Read> (out of Kani's reach in the quick tier), from input.rs' MIR: Handle::borrow_mut rewinds the capture reader to position 0 before every loan and lends the slice of everything captured once the source is exhausted, else its own capture reader untouched; From<Handle> for Input rewinds, then hands over Input::Slice(owned captured bytes) if the source is exhausted, the original source if nothing was captured, else (captured bytes from position 0) chained BEFORE (the source); TryFrom<Handle> for Cow rewinds, captures to the end once, returns a source error as it is; Ref::prefix captures up to exactly the requested size once and then reads the buffer, source errors passed through; slice handles pass their bytes through untouched",
+    bounds="every path of Handle::borrow_mut, From<Handle> for Input, TryFrom<Handle> for Cow, Ref::prefix with GuardedCaptureReader::{rewind_and_borrow_mut,rewind_and_take}, CaptureReader::{rewind,captured,is_source_eof,into_inner} inlined; arbitrary initial cursor position, buffer, eof flag",
+    functions=["input::Handle::borrow_mut", "<Input as From<Handle>>::from", "<Cow<[u8]> as TryFrom<Handle>>::try_from", "input::Ref::prefix", "input::GuardedCaptureReader::{rewind_and_borrow_mut,rewind_and_take}",
+               "input::CaptureReader::{rewind,captured,is_source_eof,into_inner}"],
+    props=["C09", "C02", "C12"], thorough_props=["C03"], timeout=300, mem_gb=4,
+    assumptions=K_ASM[:1] + ["io::Cursor is a (buffer, position) pair: set_position/get_ref/into_inner/new by their documentation; Read::chain(a, b) reads a then b; capture_to_end / capture_up_to_size are the functions decided by the Kani harnesses C2' (here: symbolic result)"])
 add("e3_k20_attribution", "", overlay="e3",
     desc="error attribution of the streaming transcoder as an inductive assume-guarantee argument over stream.rs' MIR, valid at EVERY nesting depth: with error values split into REAL (made by the third-party serializer/deserializer) and SYNTHETIC (Error::custom(TRANSLATION_FAILED)), and State's three Cells modelled as heap cells, each of transcode, the 17 scalar visit_* (+forward_scalar), visit_seq, visit_map, SeqSeed/KeySeed/ValueSeed::deserialize (+Forwarder::new, serialize_with_seed, closures) and Forwarder::serialize re-establishes the interface invariant 'source = Ser and the captured error is the serializer's REAL one, or source = De and the returned error is the deserializer's REAL one' from the same invariant of the calls it makes; transcode turns it into Error::Ser(real, _) / Error::De(real); no take_parent()/unwrap() can panic; visit_seq/visit_map pass the announced length on unchanged and each scalar goes to the same-named serializer method with the same value",
     bounds="every path of 26 functions of src/transcode/stream.rs; collections of <= 2 elements per visit_seq/visit_map step (each element uses a fresh seed, so longer collections repeat the same step); nesting depth unbounded (induction over the call structure)",
